@@ -551,6 +551,19 @@ func checkC04(c *Ctx) {
 		n := 0
 		var isIPString func(g *ssa.Function, v ssa.Value, d int) bool
 		isIPString = func(g *ssa.Function, v ssa.Value, d int) bool {
+			if hv, hf := structHelperField(g, v); hv != nil && d <= 2 {
+				// a field of a key object built by a helper of the package
+				if u, isLoad := hv.(*ssa.UnOp); isLoad {
+					if al, isA := u.X.(*ssa.Alloc); isA && al.Referrers() != nil {
+						for _, ref := range *al.Referrers() {
+							if st, isSt := ref.(*ssa.Store); isSt && st.Addr == ssa.Value(al) {
+								hv = st.Val
+							}
+						}
+					}
+				}
+				return isIPString(hf, hv, d+1)
+			}
 			call, ok := v.(*ssa.Call)
 			if !ok || d > 2 {
 				return false
